@@ -10,9 +10,9 @@
     to_ip / to_si T u:from n x1..xn  -> ok u:unit r1..rn | err:value
     in_range T (u:unit|none) n x1..xn -> ok 0|1 | err:value
     header T u:unit        -> ok | err:value
-    coll T u:unit n x1..xn op*       op = cu u:x | ci | cs | tu u:x | ti | ts
-        -> per op ` | <res> # T:<type> u:<unit> r1..rn`  where res = ok | err:value |
-           new T:<type> u:<unit> r1..rn   (state after `#` is the collection the op was called on)
+    coll imm T u:unit n x1..xn op*   imm = 0|1 (immutable class); op = cu u:x | ci | cs | tu u:x | ti | ts
+        -> per op ` | <res> # I:<imm> T:<type> u:<unit> r1..rn`  where res = ok | err:value | err:attr |
+           new I:<imm> T:<type> u:<unit> r1..rn  (state after `#` is the collection the op was called on)
     tables T               -> units / si / ip / targets / limits as the model holds them
 -/
 import Ladybug.DrvCore
@@ -62,7 +62,7 @@ def showBound : Bound → String
   | .fin r => showRat r
 
 def showState (c : Coll) : String :=
-  joinSp (["T:" ++ c.T.name, showUnit c.unit] ++ c.values.map showRat)
+  joinSp (["I:" ++ showBool c.immutable, "T:" ++ c.T.name, showUnit c.unit] ++ c.values.map showRat)
 
 /-- Run the op tokens of a `coll` request on the model collection. -/
 def runOps (fuel : Nat) (c : Coll) (ops : List String) (acc : String) : String :=
@@ -85,12 +85,12 @@ def runOps (fuel : Nat) (c : Coll) (ops : List String) (acc : String) : String :
       | none => "bad-op"
     | "tu" :: u :: rest =>
       match unitTok? u with
-      | some u => dup (c.convertToUnit u) rest
+      | some u => dup (c.toUnitCopy u) rest
       | none => "bad-op"
     | "ci" :: rest => conv c.convertToIp rest
     | "cs" :: rest => conv c.convertToSi rest
-    | "ti" :: rest => dup c.convertToIp rest
-    | "ts" :: rest => dup c.convertToSi rest
+    | "ti" :: rest => dup c.toIpCopy rest
+    | "ts" :: rest => dup c.toSiCopy rest
     | _ => "bad-op"
 
 def handle (toks : List String) : String :=
@@ -135,12 +135,12 @@ def handle (toks : List String) : String :=
     match findT t, unitTok? u with
     | some T, some u => if Coll.headerOk T u then "ok" else "err:value"
     | _, _ => "bad-op"
-  | "coll" :: t :: u :: rest =>
-    match findT t, unitTok? u, takeVals rest with
-    | some T, some u, some (vals, ops) =>
-      if Coll.headerOk T u then runOps (ops.length + 1) ⟨T, u, vals⟩ ops "ok"
+  | "coll" :: imm :: t :: u :: rest =>
+    match bool? imm, findT t, unitTok? u, takeVals rest with
+    | some imm, some T, some u, some (vals, ops) =>
+      if Coll.headerOk T u then runOps (ops.length + 1) ⟨T, u, vals, imm⟩ ops "ok"
       else "err:value"
-    | _, _, _ => "bad-op"
+    | _, _, _, _ => "bad-op"
   | ["tables", t] =>
     match findT t with
     | some T =>
